@@ -487,6 +487,14 @@ def sch_bound(ctx: Ctx) -> RuleResult:
                           "dispatch nor were all in-flight sets waited on since the last submission",
                           {"path": p.describe(), "facts": sorted(map(sorted, e.facts))})
     r.require(n_pooled > 0, "no pooled dispatch path found")
+    # "all in-flight sets were waited on" implies a free slot only when the wait really blocks until something finished
+    for q, h in m.helpers.items():
+        tm = [x for x in h.notes if x.startswith("TIMEOUT")]
+        r.ob(not tm, {"helper": h.fn.short, "the wait blocks until a future is done (no timeout)": not tm})
+        if tm:
+            r.violate(f"{h.fn.short}: the wait primitive can return on a timeout ({tm[0][9:]})", h.fn.loc(h.wait_call),
+                      "a wait that may return with nothing finished frees no slot: the dispatch that follows the scheduler's 'pool is full' "
+                      "wait hands one more node to the pool than max_concurrency allows (and every later one, since the guard tests equality)", tm)
     return r
 
 
@@ -664,6 +672,9 @@ def sch_arms(ctx: Ctx) -> RuleResult:
 def sch_seq_pre(ctx: Ctx) -> RuleResult:
     r = RuleResult("SCH-SEQ-PRE")
     m = model(ctx)
+    _reselected(m, r)
+    if r.findings:
+        return r
     ps = _sane(m, r)
     want = frozenset([("SEQ", False), ("N_ZERO", True)])
     nd = 0
@@ -714,12 +725,25 @@ def sch_seq_post(ctx: Ctx) -> RuleResult:
     return r
 
 
+def _reselected(m: SchedModel, r: RuleResult) -> None:
+    """The node that is dispatched is the node that was selected and tested: it is not re-bound, under a test on itself, in between."""
+    rs = getattr(m, "reselect", None)
+    r.ob(rs is None, {"selected node re-bound after its guards": norm_src(rs)[:80] if rs is not None else None})
+    if rs is not None:
+        r.violate(f"{m.fn.short}: the selected node is replaced by another one after it was tested ({norm_src(rs)[:60]})", _where(m, rs),
+                  "the replacement is dispatched without having gone through the iteration's guards: it may be sequential itself (and "
+                  "starts alongside the nodes in flight), and it is not the highest compound priority of the ready set", norm_src(rs))
+
+
 # ---------------------------------------------------------------------------------------------- SCH-PRIO
 def sch_prio(ctx: Ctx) -> RuleResult:
     r = RuleResult("SCH-PRIO")
     m = model(ctx)
     form, key = m.sel_form, m.sel_key
     inst = {"selection": norm_src(m.sel_expr)}
+    _reselected(m, r)
+    if r.findings:
+        return r
     if getattr(m, "sel_subset", None):
         r.ob(False, inst)
         r.violate(f"{m.fn.short}: the selection ranks only a part of the runnable set ({m.sel_subset[0]}() may return {m.sel_subset[1]})",
@@ -974,6 +998,18 @@ def sch_waitsites(ctx: Ctx) -> RuleResult:
         lic, why = _licence(m, s)
         e = s["event"]
         r.ob(lic is not None, {"wait": e.data["what"], "where": _where(m, e.node), "licence": lic})
+        # under MAIN / SEQ-PRE one completion is enough to go back to the loop head and look at the ready set again: such a wait is not
+        # repeated by an inner loop of its own (a drain keeps ready nodes and free slots waiting for unrelated nodes to finish)
+        if lic in ("MAIN", "SEQ-PRE"):
+            from ..ctx import enclosing_stmt_chain
+
+            inner = [x for x in enclosing_stmt_chain(m.loop_stmt, e.node) if isinstance(x, (ast.While, ast.For, ast.AsyncFor)) and x is not m.loop_stmt]
+            r.ob(not inner, {"wait": e.data["what"], "licence": lic, "repeated by an inner loop": bool(inner)})
+            if inner:
+                r.violate(f"{m.fn.short}: the {lic} wait({e.data['kind']}) is repeated by an inner loop ({norm_src(inner[-1].test if isinstance(inner[-1], ast.While) else inner[-1].iter)[:50]})",
+                          _where(m, e.node), "the scheduler keeps waiting until the loop condition fails instead of re-examining the ready "
+                          "set after the first completion: a ready node released by an early finisher, and a free slot, wait for nodes they "
+                          "do not depend on", norm_src(inner[-1])[:120])
         if lic is None:
             r.violate(f"{m.fn.short}: blocking wait({e.data['kind']}) outside the three licences", _where(m, e.node),
                       "the scheduler may block only when max_concurrency nodes are in flight, nothing is runnable, or a sequential "
